@@ -101,7 +101,7 @@ Proof.
   f_equal. apply forallb_ext_Forall. exact IH.
 Qed.
 
-Lemma benign_sort isl isf : forall t rel, benignb isl isf rel (sort_tree t) = benignb isl isf rel t.
+Lemma benign_sort pre isl isf : forall t rel, benignb pre isl isf rel (sort_tree t) = benignb pre isl isf rel t.
 Proof.
   induction t as [c m mt|tg mt|m mt ch IH] using tree_ind'; intro rel; try reflexivity.
   rewrite sort_tree_dir. simpl.
@@ -116,12 +116,12 @@ Proof.
   destruct rest; [reflexivity|]. now rewrite E, F, IH.
 Qed.
 
-Lemma benign_ext isl isl' isf isf' : (forall p, isl p = isl' p) -> (forall p, isf p = isf' p) ->
-  forall t rel, benignb isl isf rel t = benignb isl' isf' rel t.
+Lemma benign_ext pre isl isl' isf isf' : (forall p, isl p = isl' p) -> (forall p, isf p = isf' p) ->
+  forall t rel, benignb pre isl isf rel t = benignb pre isl' isf' rel t.
 Proof.
   intros E F. induction t as [c m mt|tg mt|m mt ch IH] using tree_ind'; intro rel; simpl.
   - apply F.
-  - rewrite E. destruct (lexnorm (parent rel ++ split_slash tg)); [|reflexivity].
+  - rewrite E. destruct (link_target_path pre rel tg); [|reflexivity].
     now rewrite (prefixes_clear_ext isl isl' isf isf' E F).
   - apply forallb_ext_Forall. eapply Forall_impl; [|exact IH]. intros nc H. apply H.
 Qed.
@@ -148,7 +148,7 @@ Proof.
   apply flat_map_perm_Forall. eapply Forall_impl; [|exact IH]. intros nc H. apply H.
 Qed.
 
-Lemma benign_tree_sort T : benign_tree (sort_tree T) = benign_tree T.
+Lemma benign_tree_sort pre T : benign_tree pre (sort_tree T) = benign_tree pre T.
 Proof.
   unfold benign_tree. rewrite benign_sort. apply benign_ext; intro p.
   - unfold links_of. apply existsb_perm, link_paths_sort.
@@ -174,28 +174,6 @@ Lemma expected_sort umask preserve T p :
 Proof.
   intro Hwf. unfold expected. rewrite (tree_get_sort p T Hwf).
   destruct (tree_get T p) as [[| |]|]; reflexivity.
-Qed.
-
-Lemma expected_impl_sort umask preserve T p :
-  wf_treeb T = true -> expected_impl umask preserve (sort_tree T) p = expected_impl umask preserve T p.
-Proof.
-  intro Hwf. unfold expected_impl.
-  destruct p, preserve; try apply expected_sort; try exact Hwf.
-  destruct T; try reflexivity.
-Qed.
-
-(* the round trip of what Store.Add really writes, hypotheses on the tree as given *)
-Theorem roundtrip_walk pre umask preserve repro T :
-  is_dir T = true -> wf_treeb T = true -> modes_okb T = true -> benign_tree T = true ->
-  exists f', extract_prefix pre umask preserve (tar_entries pre repro T) = Ok f' /\
-    forall p, fs_lookup f' p = expected_impl umask preserve T p.
-Proof.
-  intros Hd Hwf Hmo Hbe.
-  destruct (roundtrip_sorted pre umask preserve repro T Hd) as (f' & E & L).
-  - now rewrite wf_sort.
-  - now rewrite modes_sort.
-  - now rewrite benign_tree_sort.
-  - exists f'. split; [exact E|]. intro p. rewrite L. now apply expected_impl_sort.
 Qed.
 
 (* reproducibility does not depend on the order in which a directory lists its entries:
